@@ -11,7 +11,8 @@ RULE = ("case = one history of 10..40 operations over several successive writers
         "(also of an already deleted doc, and delete=False = undelete of a deletion of this writer or of an earlier commit), "
         "delete_by_term, delete_by_query (return value), Index.delete_by_term/delete_by_query/optimize/add_field/remove_field, "
         "commit(merge=False | default | optimize=True), cancel(), exception inside `with ix.writer()`, add_field/remove_field, "
-        "BufferedWriter sessions; RAM and file storage, posting block limit 2..128, with/without vectors and sortable columns. "
+        "BufferedWriter sessions; RAM and file storage, compound and loose segments, posting block limit 2..128, with/without vectors and "
+        "sortable columns; the writer's own is_deleted/deleted_count/has_deletions after every delete/undelete by number. "
         "Non-trivial when the history committed at least one deletion or update of a committed document and at least two commits "
         "were compared; distinct = (unique mode, writer kinds, op-kind sequence, commit kinds).")
 ASSUMPTIONS = [
@@ -34,13 +35,13 @@ SHARDS = {"quick": 4, "thorough": 16}
 BUDGET_S = {"quick": 80, "thorough": 800}
 FLOORS = {
     "quick": {"c07.histories": 100, "c07.commits_compared": 500, "c07.cancels_compared": 60, "c07.api_checks": 20000,
-              "c07.pattern_delete_nonfirst_merge_update": 15, "c07.op.delete_docnum": 150, "c07.op.undelete": 40,
+              "c07.pattern_delete_nonfirst_merge_update": 20, "c07.op.delete_docnum": 150, "c07.op.undelete": 40,
               "c07.op.delete_by_query": 100, "c07.op.delete_by_term": 100, "c07.op.update": 300, "c07.delete_count_checks": 200,
               "c07.buffered_sessions": 20, "c07.nontrivial": 60},
-    "thorough": {"c07.histories": 3000, "c07.commits_compared": 15000, "c07.cancels_compared": 1500, "c07.api_checks": 600000,
-                 "c07.pattern_delete_nonfirst_merge_update": 400, "c07.op.delete_docnum": 4000, "c07.op.undelete": 1000,
-                 "c07.op.delete_by_query": 3000, "c07.op.delete_by_term": 3000, "c07.op.update": 9000,
-                 "c07.delete_count_checks": 6000, "c07.buffered_sessions": 600, "c07.nontrivial": 1800},
+    "thorough": {"c07.histories": 1800, "c07.commits_compared": 9000, "c07.cancels_compared": 1000, "c07.api_checks": 400000,
+                 "c07.pattern_delete_nonfirst_merge_update": 300, "c07.op.delete_docnum": 2500, "c07.op.undelete": 800,
+                 "c07.op.delete_by_query": 2500, "c07.op.delete_by_term": 2500, "c07.op.update": 7000,
+                 "c07.delete_count_checks": 5000, "c07.buffered_sessions": 400, "c07.nontrivial": 1200},
 }
 
 IDPOOL = [str(i) for i in range(14)]
